@@ -165,7 +165,7 @@ pub fn mixed_set(g: &mut Gen, n: usize) -> Vec<[f64; 4]> {
     let epochs = [2000.0, 2001.0, 2002.0, 2001.0, f64::NAN, 2020.5, 2000.0];
     let mut v: Vec<[f64; 4]> = vec![];
     for i in 0..n {
-        let kind = g.rng.below(12);
+        let kind = g.rng.below(14);
         let t = epochs[g.rng.below(epochs.len())];
         let c = match kind {
             // the poles, exactly; the half-cell margin band of the test grids (54-58 N, 8-16 E, cells of 1 degree)
@@ -180,6 +180,9 @@ pub fn mixed_set(g: &mut Gen, n: usize) -> Vec<[f64; 4]> {
             // on the meridian / the parallel of the tuple before (one element shared bit for bit, the other not)
             8 if v.last().map(|p| p[0].is_finite()).unwrap_or(false) => [v[v.len() - 1][0], g.rng.uniform(0.8, 1.1), 50.0, t],
             9 if v.last().map(|p| p[1].is_finite()).unwrap_or(false) => [g.rng.uniform(0.05, 0.35), v[v.len() - 1][1], 50.0, t],
+            // the position of the tuple before, bit for bit, at another height or another epoch
+            12 if v.last().map(|p| p[0].is_finite() && p[1].is_finite()).unwrap_or(false) => [v[v.len() - 1][0], v[v.len() - 1][1], v[v.len() - 1][2] + *g.rng.pick(&[8000.0, -350.0, 1.0e5]), v[v.len() - 1][3]],
+            13 if v.last().map(|p| p[0].is_finite() && p[1].is_finite()).unwrap_or(false) => [v[v.len() - 1][0], v[v.len() - 1][1], v[v.len() - 1][2], t],
             _ => [
                 g.rng.uniform(0.05, 0.35),
                 g.rng.uniform(0.8, 1.1),
